@@ -156,6 +156,38 @@ def check(res, tier):
             files, _ = C10.build_program(case, lambda done, m: [] if m in done else [m])
             res.violation("behaviour:module-graph:%d" % ci, "executables built from the same module graph behave differently from build to build (%d distinct behaviours in %d builds)" % (len(set(rs)), len(rs)),
                           {"files": files, "program": files["main.ddp"], "runs": [list(x) for x in sorted(set(rs))][:4]})
+    # one generic function instantiated by several modules with types for which its body resolves to different overloads (one
+    # only reads, one changes through a Referenz): what is decided per instantiation must not depend on the order in which a map
+    # hands out the instantiating modules — built repeatedly at -O 2 (where such decisions become visible) and once at -O 0
+    WZ = ('Binde "Duden/Ausgabe" ein.\n\nDie öffentliche Zahl gesamt ist 0.\n\n'
+          'Die öffentliche Funktion Setze_Erstes mit dem Parameter l vom Typ Zahlen Listen Referenz, gibt nichts zurück, macht:\n\tSpeichere 99 in l an der Stelle 1.\nUnd kann so benutzt werden:\n\t"Bearbeite <l>"\n\n'
+          'Die öffentliche Funktion Zaehle_Text mit dem Parameter t vom Typ Text, gibt nichts zurück, macht:\n\tErhöhe gesamt um die Länge von t.\nUnd kann so benutzt werden:\n\t"Bearbeite <t>"\n\n'
+          'Die öffentliche generische Funktion Verarbeite mit dem Parameter x vom Typ T, gibt nichts zurück, macht:\n\tBearbeite x.\nUnd kann so benutzt werden:\n\t"Verarbeite <x>"\n\n'
+          'Die öffentliche Funktion Probe gibt eine Zahl zurück, macht:\n\tDie Zahlen Liste liste ist eine Liste, die aus 1, 2, 3 besteht.\n\tVerarbeite liste.\n\tGib liste an der Stelle 1 zurück.\n'
+          'Und kann so benutzt werden:\n\t"die Probe"\n')
+    gjobs, gown, gprogs = [], [], []
+    for nmod in (1, 2, 4):
+        files = {"werkzeug.ddp": WZ}
+        main = 'Binde "Duden/Ausgabe" ein.\nBinde "werkzeug" ein.\n'
+        for k in range(nmod):
+            files["nutzer%d.ddp" % k] = ('Binde "werkzeug" ein.\n\nDie öffentliche Funktion Gruss%d gibt nichts zurück, macht:\n\tDer Text gruss ist "hallo%d".\n\tVerarbeite gruss.\n'
+                                         'Und kann so benutzt werden:\n\t"Grüße%d"\n' % (k, k, k))
+            main += 'Binde "nutzer%d" ein.\n' % k
+        main += "".join("Grüße%d.\n" % k for k in range(nmod)) + "Schreibe gesamt auf eine Zeile.\nSchreibe (die Probe) auf eine Zeile.\n"
+        files["main.ddp"] = main
+        gprogs.append(files)
+        for cfg in [pipeline.Config(opt=0)] + [pipeline.Config(opt=2)] * (8 if tier == "quick" else 24):
+            gjobs.append((files, cfg, {}))
+            gown.append(len(gprogs) - 1)
+    grs = pipeline.farm(ddp, gjobs)
+    for gi, files in enumerate(gprogs):
+        rs = [(r.cls, r.stdout, r.exit) for r, o in zip(grs, gown) if o == gi]
+        res.evaluations += len(rs)
+        res.nontrivial("generic-across-modules:%d" % gi)
+        if len(set(rs)) != 1:
+            res.violation("behaviour:generic-across-modules:%d" % gi, "executables built from the same sources behave differently from build to build (%d distinct behaviours in %d builds, "
+                          "the first one at -O 0, the others at -O 2)" % (len(set(rs)), len(rs)),
+                          {"files": files, "program": files["main.ddp"], "runs": [list(x) for x in sorted(set(rs))][:4]})
     res.extra.update({"inputs": len(ins), "in_process_repetitions": n_in, "module_graphs_built_repeatedly": len(cases), "builds_per_graph": reps, "fresh_process_rounds": len(runs) - 1, "unstable_inputs": unstable,
                       "order_sites": len(json.load(open(os.path.join(leanproj.LEAN, "DDP", "Generated", "OrderSites.json"))))})
     res.rule = ("crafted inputs that put >=2 candidates at every classified site (several ill-typed/undeclared arguments, struct literal "
